@@ -104,6 +104,59 @@ def validate(prop, traces, rep, ev, spec="TraceWriteSession", cfg="TraceWriteSes
     shutil.rmtree(d, ignore_errors=True)
 
 
+def after_failure_case(case):
+    """WriteSession.tla: a failed call is inert - the session after it is in the state it had before.  Executed as a comparison with a
+    control session that never made the failed call: members written AFTER the failure (plain files, and symbolic links whose absolute
+    targets are the failed source / a source that was stored) must come out the same - stored link targets included."""
+    import io
+    py7zr = import_py7zr()
+    wd, fault, target_kind, filt = case["wd"], case["fault"], case["target"], case["filters"]
+    os.makedirs(wd, exist_ok=True)
+    try:
+        p_bad, p_ok = os.path.join(wd, "data.bin"), os.path.join(wd, "kept.bin")
+        open(p_bad, "wb").write(b"source that fails " * 40)
+        open(p_ok, "wb").write(b"source that is stored " * 30)
+        os.makedirs(os.path.join(wd, "links"), exist_ok=True)
+        l_bad, l_ok = os.path.join(wd, "links", "to_failed"), os.path.join(wd, "links", "to_kept")
+        os.symlink(p_bad, l_bad)
+        os.symlink(p_ok, l_ok)
+
+        def session(with_failure):
+            bio = io.BytesIO()
+            arc = os.path.join(wd, f"s{int(with_failure)}.7z")
+            z = py7zr.SevenZipFile(bio if target_kind == "stream" else arc, "w", filters=filt)
+            z.writestr(b"first", "first.txt")
+            exc = "none"
+            if with_failure:
+                fp = wsession.FaultyPath(p_bad)
+                wsession.FaultyPath._faults[p_bad] = {"fault": fault, "counter": wsession.Counter(), "cid": 1, "after": 0 if case["zero"] else 300}
+                try:
+                    z.write(fp, "data.bin")
+                except Exception as e:  # noqa
+                    exc = type(e).__name__
+                wsession.FaultyPath._faults.pop(p_bad, None)
+            z.write(p_ok, "kept.bin")
+            z.write(l_bad, "links/to_failed")
+            z.write(l_ok, "links/to_kept")
+            z.writestr(b"last", "last.txt")
+            z.close()
+            raw = bio.getvalue() if target_kind == "stream" else open(arc, "rb").read()
+            try:
+                with py7zr.SevenZipFile(io.BytesIO(raw)) as r:
+                    fac = py7zr.io.BytesIOFactory(1 << 24)
+                    names = r.getnames()
+                    r.extractall(factory=fac)
+                    return exc, [(n, fac.products[n].read().hex() if n in fac.products else None) for n in names]
+            except Exception as e:  # noqa
+                return exc, "refused:" + type(e).__name__
+
+        exc, got = session(True)
+        _none, want = session(False)
+        return {"exc": exc, "got": got, "want": want}
+    finally:
+        shutil.rmtree(wd, ignore_errors=True)
+
+
 def run(tier, rep, ev):
     import_py7zr()
     R = rng("c15")
@@ -179,6 +232,30 @@ def run(tier, rep, ev):
     if traces:
         ev.sample({"trace": traces[len(traces) // 2]})
     validate("C15", traces, rep, ev, origins=origins)
+    # ---- members written after a failed call, against a control session without it (symbolic links to the failed source: seed C15-8)
+    abase = scratch("c15a")
+    acases = [{"wd": os.path.join(abase, f"a{k}"), "fault": fault, "zero": zero, "target": tk, "filters": fl}
+              for k, (fault, zero, tk, fl) in enumerate((f, zr, tk, fl) for f in ("open", "read") for zr in (False, True)
+                                                        for tk in ("stream", "path") for fl in (None, [{"id": 0x33}]))]
+    for c, o in zip(acases, sandbox.run_cases(after_failure_case, acases, timeout=60, nproc=16)):
+        desc = {k: v for k, v in c.items() if k != "wd"}
+        ev.case(("after-failure", json.dumps(desc, sort_keys=True)), nontrivial=True)
+        if o.status != "ok":
+            if o.status != "skipped":
+                rep.violation(f"after-failure-{o.status}", f"{o.value} {o.detail[-300:]}", {"case": desc})
+            continue
+        v = o.value
+        if v["exc"] == "none":
+            raise MachineryError(f"the injected {c['fault']} fault did not make write() fail")
+        if isinstance(v["got"], str) and c["fault"] == "read" and not c["zero"]:
+            continue        # a source that failed midway: the statement only asks that the result never opens with wrong contents
+        if v["got"] != v["want"]:
+            diff = [(a, b) for a, b in zip(v["got"], v["want"]) if a != b][:2]
+            rep.violation("after-failure:members-differ-from-the-session-without-the-failed-call",
+                          f"write() failed ({c['fault']}) and the members written afterwards are not what they are without that call: {str(diff)[:300]}",
+                          {"case": desc, "got": v["got"], "want": v["want"]})
+    ev.cov["after_failure_control_sessions"] = len(acases)
+    shutil.rmtree(abase, ignore_errors=True)
     ev.cov["exhaustive"] = True
     ev.cov["rule"] = ("all histories of <=3 (quick) / <=4 (thorough) calls x {writestr,writef,write} x 1 fault at each step from TLC, "
                       f"2-session histories of <=2 calls, {nrand} random histories of <=3 sessions x <=5 calls x <=2 faults; "
